@@ -49,6 +49,19 @@ def rand_specs(R, finite=False, samename=False, maxdepth=3, top=(1, 3), prefix="
                 other = [v for v in vals if v not in sub]
                 child = dict(specs[-1])
                 child["conds"] = [list(c) for c in conds] + [[n, other]]
+                if R.random() < 0.6:
+                    # ... with a domain of its own (`units` 32..128 under one model type, 256..512 under the other)
+                    k = child["kind"]
+                    if k == "int":
+                        child.update(lo=child["lo"] + 10, hi=child["hi"] + 10, default=None if child["default"] is None else child["default"] + 10)
+                    elif k == "float":
+                        child.update(lo=child["lo"] * 16, hi=child["hi"] * 16)
+                    elif k == "choice" and not isinstance(child["values"][0], bool):
+                        v0 = child["values"][0]
+                        child.update(values=["p", "q"] if isinstance(v0, str) else [7, 8, 9] if isinstance(v0, int) else [10.5, 11.5], default=None)
+                    elif k == "fixed" and not isinstance(child["value"], bool):
+                        v0 = child["value"]
+                        child.update(value="t" if isinstance(v0, str) else v0 + 5)
                 specs.append(child)
 
     for _ in range(R.randint(*top)):
@@ -158,6 +171,7 @@ def make_oracle(R, kind, specs, directory, **over):
                                                 num_initial_points=over.get("num_initial_points", R.randint(1, 3)), **kw)
     o._set_project_dir(directory, "p")
     o.verbose = 0
+    o._verif_initial_space = build_space(specs)     # what a restarted process passes as `hyperparameters=` again
     return o
 
 
@@ -168,6 +182,10 @@ def clone_oracle(o, directory):
     kw = dict(objective=kt.Objective(o.objective.name, o.objective.direction), hyperparameters=None,
               seed=o.seed, max_retries_per_trial=o.max_retries_per_trial,
               max_consecutive_failed_trials=o.max_consecutive_failed_trials)
+    if not (o.tune_new_entries and o.allow_new_entries):
+        init = getattr(o, "_verif_initial_space", None)
+        kw.update(hyperparameters=init.copy() if init is not None else o.hyperparameters.copy(),
+                  tune_new_entries=o.tune_new_entries, allow_new_entries=o.allow_new_entries)
     if isinstance(o, randomsearch.RandomSearchOracle):
         n = randomsearch.RandomSearchOracle(max_trials=o.max_trials, **kw)
     elif isinstance(o, gridsearch.GridSearchOracle):
@@ -177,6 +195,7 @@ def clone_oracle(o, directory):
         n = hyperband.HyperbandOracle(max_epochs=o.max_epochs, factor=o.factor, hyperband_iterations=it if it != float("inf") else None, **kw)
     else:
         n = bayesian.BayesianOptimizationOracle(max_trials=o.max_trials, num_initial_points=o.num_initial_points, alpha=o.alpha, beta=o.beta, **kw)
+    n._verif_initial_space = getattr(o, "_verif_initial_space", None)
     n._set_project_dir(directory, "p")
     n.verbose = 0
     return n
